@@ -176,3 +176,8 @@ Proof.
   destruct x0 as [a b], x1 as [c d], y0 as [e f], y1 as [g h]. cx_unfold. cbn in *.
   repeat f_equal; lra.
 Qed.
+
+Lemma source_power_proof :
+  forall (I : vecR) (s : @source RNum),
+    source_pwr I s = (Re (Cmult (s_volt s) (Cconj (vnth I (s_idx s)))) / 2)%R.
+Proof. intros. unfold source_pwr, source_current. apply src_power_eq. Qed.
